@@ -225,3 +225,24 @@ def register(M):
     M('C20_blankline', ['C20', 'C05'], 'checker.py',
       "        want = remove_blankline_marker(want)\n\n    # always", "        pass\n\n    # always",
       '<BLANKLINE> handling dropped')
+
+    # ---- C18 ---------------------------------------------------------------
+    M('C18_wantdrop', ['C18'], 'doctest_part.py',
+      "            for line in want_text.splitlines():\n                if want:\n                    want_lines.append(want_fmt.format(line=line))",
+      "            for line in want_text.splitlines()[:1]:\n                if want:\n                    want_lines.append(want_fmt.format(line=line))",
+      'only the first want line is displayed')
+    M('C18_offset', ['C18'], 'doctest_part.py',
+      "            start = startline + self.line_offset\n", "            start = startline\n",
+      'displayed numbers lose the part offset')
+    M('C18_orig', ['C18'], 'doctest_part.py',
+      "                src_text = '\\n'.join(self.orig_lines)", "                src_text = utils.indent(self.source, '>>> ')",
+      'continuation prompts lost in the displayed source (modes change on re-parse)')
+    M('C18_ndigits', ['C18'], 'utils/util_str.py',
+      "    src_fmt = '{count:{n_digits}d} {line}'", "    src_fmt = '{count:{n_digits}d}{line}'",
+      'no separator between number column and text')
+    M('C18_fileline', ['C18'], 'doctest_example.py',
+      "            if offset_linenos:\n                startline = self.lineno\n", "            if offset_linenos:\n                startline = self.lineno + 1\n",
+      'file-relative numbers off by one')
+    M('C18_wantflag', ['C18'], 'doctest_part.py',
+      "        if want_lines:\n            part_text += '\\n' + want_text", "        if self.want:\n            part_text += '\\n' + self.want",
+      'want=False still shows the want')
